@@ -13,3 +13,8 @@ def run(ctx):
         r4 = ctx.rule("R05.4" + sfx, "returned counts are (offered - left - undone, position - out_pos)", floor=4, config=cfg)
         r6 = ctx.rule("R05.4u" + sfx, "whole unread bytes are handed back on every non-starved exit", floor=4, config=cfg)
         ic.rule_counts_and_undo(ctx, cfg, r4, r6)
+        from rules import c08
+        r8 = ctx.rule("R05.8" + sfx, "no out-of-window write (slice index panic): bytes written on every path <= space verified", floor=12, config=cfg)
+        c08.rule_write_budget(ctx, cfg, r8)
+        r9 = ctx.rule("R05.6" + sfx, "bit-buffer discipline: no bit beyond num_bits decides the slow Huffman walk", floor=2, config=cfg)
+        ic.rule_bit_reads(ctx, cfg, r9)
